@@ -100,6 +100,8 @@ type Kernel struct {
 // K is the kernel of the (single) run of this process. nil outside a run.
 var K *Kernel
 
+var yieldDebug = os.Getenv("VERIF_YTRACE") != ""
+
 func mix(x uint64) uint64 {
 	x += 0x9E3779B97F4A7C15
 	x = (x ^ (x >> 30)) * 0xBF58476D1CE4E5B9
@@ -298,6 +300,9 @@ func Yield(site uint32) {
 	k.siteVisits[site] = v + 1
 	k.mu.Unlock()
 	h := Hash(k.Seed, "park", uint64(site), v)
+	if yieldDebug {
+		k.Tracef("yield site=%x v=%d park=%v", site, v, h%1000 < k.yieldParkP)
+	}
 	if h%1000 >= k.yieldParkP {
 		return
 	}
